@@ -87,6 +87,9 @@ class Gen:
             return [("push", r.randrange(3)), "TLOAD"]
         if self.callees and self.f.get("extcode", True):
             self.count("leaf:EXTCODESIZE")
+            if self.f.get("symbolic_target", False) and r.random() < 0.4:
+                self.count("leaf:EXTCODESIZE-symbolic-account")
+                return self.arg() + ["EXTCODESIZE"]      # alias resolution over every account with code
             return [("push", r.choice(self.callees + [0x2222])), r.choice(["EXTCODESIZE", "EXTCODEHASH"])]
         return self.const()
 
@@ -215,7 +218,7 @@ class Gen:
             if t in self.value_callees:
                 self.uses_value = True
             self.count("target:known")
-        elif tk < 0.9:
+        elif tk < 0.85:
             target = [("push", r.choice([0x2222, 0x3333]))]
             self.count("target:missing")
         elif self.f.get("symbolic_target", False):
